@@ -48,6 +48,7 @@ def tyOf : String → Except String Ty
   | "bool" => pure .bool | "int" => pure .int | "long" => pure .long | "float" => pure .float
   | "double" => pure .double | "char" => pure .char | "string" => pure .string | "enum" => pure .enumT
   | "arr" => pure .arr | "rec" => pure .rcd | "func" => pure .func
+  | "rng" => pure .rng | "slc" => pure .slc
   | s => throw s!"bad type {s}"
 
 def binOf : String → Except String BinOp
@@ -125,6 +126,9 @@ partial def exprOf : SX → Except String Expr
   | .list [.atom "iflet", g, e, els] => do pure (.ifLet (← guardOf g) (← exprOf e) (← exprOf els))
   | .list (.atom "listcomp" :: .atom t :: body :: qs) => do
     pure (.listcomp (← exprOf body) (← qs.mapM qualOf) (← tyOf t))
+  | .list (.atom "pipe" :: l :: f :: args) => do pure (.pipe (← exprOf l) (← exprOf f) (← args.mapM exprOf))
+  | .list (.atom "range" :: bounds) => do pure (.range (← bounds.mapM exprOf))
+  | .list (.atom "slice" :: a :: bounds) => do pure (.slice (← exprOf a) (← bounds.mapM exprOf))
   | .list (.atom a :: _) => throw s!"bad expression form {a}"
   | _ => throw "bad expression"
 partial def itemOf : SX → Except String Item
@@ -184,7 +188,7 @@ def valStr : Val → String
   | .double v => s!"double:{v.toBits.toNat}"
   | .char c => s!"char:{signedChar c}"
   | .str (some s) => s!"str:{hexBytes s}"
-  | .str none | .arr none | .rcd none | .clo none => "nil"
+  | .str none | .arr none | .rcd none | .clo none | .rng none | .slc none => "nil"
   | .clo _ => "func"
   | _ => "ref"
 
@@ -223,10 +227,11 @@ partial def funsE (bs : List Name) : Expr → List (List Name × Func)
   | .for i c s b => funsE bs i ++ funsE bs c ++ funsE bs s ++ funsE bs b
   | .forIn x coll b => funsE bs coll ++ funsE (x :: bs) b
   | .call f args => funsEs bs args ++ funsE bs f
+  | .pipe l f args => funsEs bs args ++ funsE bs l ++ funsE bs f
   | .builtin _ args | .arrLit _ args _ | .arrNew args _ | .record _ args | .tuple args
-  | .enumRec _ _ args => funsEs bs args
+  | .enumRec _ _ args | .range args => funsEs bs args
   | .lam fn => funsF (if fn.name = "" then bs else fn.name :: bs) fn
-  | .index a idx => funsE bs a ++ funsEs bs idx
+  | .index a idx | .slice a idx => funsE bs a ++ funsEs bs idx
   | .field e _ => funsE bs e
   | .matchE e gs => funsE bs e ++ (gs.map (funsG bs)).flatten
   | .ifLet g e els => funsE bs e ++ funsG bs g ++ funsE bs els
